@@ -3,6 +3,7 @@ package core
 import (
 	"fmt"
 	"go/token"
+	"go/types"
 
 	"golang.org/x/tools/go/ssa"
 )
@@ -11,6 +12,7 @@ import (
 // instruction, lower bounds on len(v) for string/slice SSA values and for
 // local variable cells (Alloc) that are only written by the function itself.
 type LenState struct {
+	canon map[ssa.Value]ssa.Value // repeated loads of the same element → first load
 	fn    *ssa.Function
 	in    map[*ssa.BasicBlock]map[ssa.Value]int64 // state at block entry
 	why   map[ssa.Value]string
@@ -26,8 +28,19 @@ func cloneLS(m map[ssa.Value]int64) map[ssa.Value]int64 {
 }
 
 // lb computes the lower bound of len(v) in state st.
+func (ls *LenState) c(v ssa.Value) ssa.Value {
+	if r, ok := ls.canon[v]; ok {
+		return r
+	}
+	return v
+}
+
 func (ls *LenState) lb(v ssa.Value, st map[ssa.Value]int64, depth int) int64 {
+	v = ls.c(v)
 	best := st[v]
+	if h, ok := ParamLenHints[v]; ok && h > best {
+		best = h
+	}
 	if depth > 8 {
 		return best
 	}
@@ -92,6 +105,7 @@ func (ls *LenState) lb(v ssa.Value, st map[ssa.Value]int64, depth int) int64 {
 // refine applies the fact holding on a CFG edge.
 func (ls *LenState) refine(b *ssa.BasicBlock, st map[ssa.Value]int64, f Fact) {
 	set := func(v ssa.Value, n int64) {
+		v = ls.c(v)
 		if n > st[v] {
 			st[v] = n
 		}
@@ -149,8 +163,9 @@ func (ls *LenState) refine(b *ssa.BasicBlock, st map[ssa.Value]int64, f Fact) {
 			case token.EQL:
 				set(lx, n)
 			case token.NEQ:
-				if n == 0 {
-					set(lx, 1)
+				// len != n while len >= n is known  ⇒  len >= n+1
+				if ls.lb(lx, st, 0) >= n {
+					set(lx, n+1)
 				}
 			}
 		}
@@ -163,7 +178,41 @@ func (ls *LenState) refine(b *ssa.BasicBlock, st map[ssa.Value]int64, f Fact) {
 
 // LenFlow runs the analysis on fn.
 func LenFlow(fn *ssa.Function) *LenState {
-	ls := &LenState{fn: fn, in: map[*ssa.BasicBlock]map[ssa.Value]int64{}, cells: map[*ssa.Alloc]bool{}}
+	ls := &LenState{fn: fn, in: map[*ssa.BasicBlock]map[ssa.Value]int64{}, cells: map[*ssa.Alloc]bool{}, canon: map[ssa.Value]ssa.Value{}}
+	// loads of the same element of the same (never written) slice are one value
+	type ek2 struct {
+		x ssa.Value
+		k int64
+	}
+	first := map[ek2]ssa.Value{}
+	written := map[ssa.Value]bool{}
+	Instrs(fn, func(in ssa.Instruction) {
+		if st, ok := in.(*ssa.Store); ok {
+			if ia, ok := st.Addr.(*ssa.IndexAddr); ok {
+				written[ia.X] = true
+			}
+		}
+	})
+	Instrs(fn, func(in ssa.Instruction) {
+		u, ok := in.(*ssa.UnOp)
+		if !ok || u.Op != token.MUL {
+			return
+		}
+		ia, ok := u.X.(*ssa.IndexAddr)
+		if !ok || written[ia.X] {
+			return
+		}
+		k, isC := ConstInt(ia.Index)
+		if !isC {
+			return
+		}
+		key := ek2{ia.X, k}
+		if f, ok := first[key]; ok {
+			ls.canon[u] = f
+		} else {
+			first[key] = u
+		}
+	})
 	Instrs(fn, func(in ssa.Instruction) {
 		if al, ok := in.(*ssa.Alloc); ok {
 			okc := true
@@ -285,6 +334,58 @@ func LenFlow(fn *ssa.Function) *LenState {
 		}
 	}
 	return ls
+}
+
+// ParamLenHints: lower bounds on len(param) established by every call site
+// (filled by ComputeParamLenHints for unexported helpers).
+var ParamLenHints = map[ssa.Value]int64{}
+
+// ComputeParamLenHints derives, for each unexported function among fns whose
+// call sites are all static calls within fns, the minimum over its call sites
+// of the length lower bound of each slice/string argument.
+func ComputeParamLenHints(fns []*ssa.Function) {
+	type site struct {
+		caller *ssa.Function
+		call   *ssa.Call
+	}
+	sites := map[*ssa.Function][]site{}
+	for _, f := range fns {
+		Instrs(f, func(in ssa.Instruction) {
+			if call, ok := in.(*ssa.Call); ok {
+				if ci := InfoOf(&call.Call); ci.Static != nil {
+					sites[ci.Static] = append(sites[ci.Static], site{f, call})
+				}
+			}
+		})
+	}
+	flows := map[*ssa.Function]*LenState{}
+	for _, f := range fns {
+		if f.Object() != nil && f.Object().Exported() || f.Parent() != nil || len(sites[f]) == 0 {
+			continue
+		}
+		for i, par := range f.Params {
+			switch par.Type().Underlying().(type) {
+			case *types.Slice, *types.Basic:
+			default:
+				continue
+			}
+			best := int64(-1)
+			for _, s := range sites[f] {
+				fl := flows[s.caller]
+				if fl == nil {
+					fl = LenFlow(s.caller)
+					flows[s.caller] = fl
+				}
+				n := fl.At(s.call.Call.Args[i], s.call)
+				if best < 0 || n < best {
+					best = n
+				}
+			}
+			if best > 0 {
+				ParamLenHints[par] = best
+			}
+		}
+	}
 }
 
 // At returns the lower bound of len(v) just before instr.
